@@ -213,6 +213,13 @@ def gen_file_case(rng, lookalike=False):
             else:
                 continue
             sets.append([f["name"], v])
+    for f in forms:      # selections of a multi-select form, the empty selection included
+        if f["kw"].get("multi_select") and not any(n == f["name"] for n, _ in sets) and rng.chance(60):
+            if f["tmpl"] == "choice_string_parameter":
+                cl = f["kw"]["choice_list"].get("l") or f["kw"]["choice_list"].get("t")
+                sets.append([f["name"], {"l": rng.sample(cl, rng.range(0, 2))}])
+            elif f["tmpl"] == "object_parameter":
+                sets.append([f["name"], {"l": [{"e": o, "k": "ent"} for o in rng.sample(uipv.WORLD["objects"], rng.range(0, 2))]}])
     for f in forms:      # a value given to a previously disabled optional parameter (no group / dependency in the way)
         if f["kw"].get("optional") == "disabled" and not f["extra"] and not any(n == f["name"] for n, _ in sets) and rng.chance(60):
             v = {"integer_parameter": 7, "float_parameter": {"f": [5, 1]}, "string_parameter": "xyz", "file_parameter": "a/b.chg",
